@@ -39,7 +39,7 @@ WINDOWS = [
 
 def bounds(tier):
     return dict(H1="k=2 arbitrary requests (directions and addresses), v4 configs %r%s" % ([ipc.cfg_key(c) for c in _h1_cfgs(tier)],
-                                                                                          "; v6 B in {0,8} (all 129 shared-prefix lengths); k=3 for prefix list none" if tier == "thorough" else "; v6 B=8 with shared-prefix lengths %r only" % V6_QUICK_MS),
+                                                                                          "; v6 B in {0,8} (all 129 shared-prefix lengths); k=3 (direction patterns aaa, auu, uaa, uuu) for prefix list none" if tier == "thorough" else "; v6 B=8 with shared-prefix lengths %r only" % V6_QUICK_MS),
                 H2="k=%d requests, every direction pattern, addresses in a %d-bit symbolic window: %r" % (3 if tier == "quick" else 4, 5, [(ipc.cfg_key(c), b, lo, w) for c, b, lo, w in WINDOWS]),
                 H3="k=2 requests on a memo whose reported size is an arbitrary number (any earlier history length)", hash="all functions")
 
@@ -69,7 +69,9 @@ def items(tier, seed):
                         out.append(Item("C03", "history2", dict(family=6, cfg=dict(prefixes=None, networks=None, B=b), dirs=[d1, d2], ms=[lo, hi]),
                                         budget_s=3000, obligation="H1-history-k2-v6"))
     if tier == "thorough":
-        for dirs in range(8):
+        # mixed patterns 001, 010, 101, 110 at full width leave z3 without an answer within the per-query budget (measured);
+        # mixed interleavings of every pattern are covered exhaustively in the 5-bit window (H2, k=4)
+        for dirs in (0b000, 0b011, 0b100, 0b111):
             for lo, hi in ipc.shards(33, 3):
                 out.append(Item("C03", "history3", dict(family=4, cfg=dict(prefixes=[], networks=None, B=8), dirs=[(dirs >> 2) & 1, (dirs >> 1) & 1, dirs & 1], ms=[lo, hi]),
                                 budget_s=3000, obligation="H1-history-k3-v4"))
